@@ -22,7 +22,10 @@ import pandas as pd
 KINDS = ('i64', 'i32', 'u8', 'u16', 'f64', 'f32', 'str', 'obj', 'bytes',
          'bool', 'dt', 'cat', 'nbool')
 TEXT = ['', 'a', 'b', 'zz', 'Zürich', '北京', 'x' * 40, 'null', 'nan', 'None',
-        'a/b', 'k=v', ' sp ', 'q', 'y']
+        'a/b', 'k=v', ' sp ', 'q', 'y',
+        # longer than 64 bytes with a long common beginning (min/max
+        # statistics of such values are what writers like to clip)
+        'p' * 70 + 'a', 'p' * 70 + 'b']
 CATS = ['x', 'y', 'q', 'w', 'long-label-' * 3, 'é']
 
 
@@ -97,8 +100,9 @@ def _col_values(kind, nullmode, n, rng, extra):
         vals = [np.datetime64('NaT') if nulls[i] else
                 np.datetime64(base + rng.randrange(-10**15, 10**15), 'us')
                 for i in range(n)]
+        # extra: resolution of the column (default ns)
         return pd.Series(np.array(vals, dtype='datetime64[us]')
-                         .astype('datetime64[ns]'))
+                         .astype('datetime64[%s]' % (extra or 'ns')))
     if kind == 'dttz':
         base = 1_500_000_000_000_000
         vals = [np.datetime64('NaT') if nulls[i] else
